@@ -531,10 +531,11 @@ class QuicConnection:
 
         :param now: The current time.
         """
-        network_path = self._network_paths[0]
-
-        if self._state in END_STATES:
+        if self._state in END_STATES or not self._network_paths:
+            # Nothing to send: the connection is closing, or no datagram was
+            # accepted yet so there is no network path to send to.
             return []
+        network_path = self._network_paths[0]
 
         # build datagrams
         builder = QuicPacketBuilder(
